@@ -1,5 +1,36 @@
-From HT Require Import Base.Prelude World.World.
-(* placeholder: replaced when the world-level theorems land *)
-Theorem C11_failed_tx_unchanged : forall w o e, exec w o = Err e -> step w o = w.
-Proof. intros w o e H. unfold step. now rewrite H. Qed.
-Print Assumptions C11_failed_tx_unchanged.
+(* C11 — Router delivers at least minimum_receive or the whole route reverts.
+   [w] in [C11_min_receive] is the world after the entry transfer (attached funds / cw20 send) and
+   before the first hop, so the bound is net of whatever the recipient itself paid. *)
+From HT Require Import Base.Prelude Num.Arith Amm.Formulas Amm.Guards World.World Proofs.AuthProofs Proofs.RouterProofs.
+
+Theorem C11_min_receive : forall w sender ops m to w',
+  router_exec_ops w sender ops (Some m) to = Ok w' ->
+  let rcv := match to with Some t => t | None => sender end in
+  let target := last_ask ops in
+  exists prev now, asset_balance w target rcv = Ok prev /\ asset_balance w' target rcv = Ok now /\ prev + m <= now.
+Proof. exact router_min_receive. Qed.
+
+Theorem C11_assert_message : forall w target prev m rcv w', router_assert_min w target prev m rcv = Ok w' ->
+  w' = w /\ exists now, asset_balance w target rcv = Ok now /\ prev <= now /\ m <= now - prev.
+Proof. exact router_assert_min_spec. Qed.
+
+(* both entry points reduce to it *)
+Theorem C11_entry_native : forall w c funds ops m to w', exec w (ORouterOps c funds ops (Some m) to) = Ok w' ->
+  exists w1, move_funds w c (w_rtr w) funds = Ok w1 /\ router_exec_ops w1 c ops (Some m) to = Ok w'.
+Proof. exact exec_router_ops_min. Qed.
+Theorem C11_entry_cw20 : forall w ta sender n ops m to w',
+  w_pairs w (w_rtr w) = None ->
+  cw20_send w ta sender (w_rtr w) n (HRouterOps ops m to) = Ok w' ->
+  exists w1, with_token w ta (fun t => tok_transfer t sender (w_rtr w) n) = Ok w1 /\
+             router_exec_ops w1 sender ops m to = Ok w'.
+Proof. exact cw20_send_router_decompose. Qed.
+
+(* if the route would deliver less the whole transaction fails and nothing changes *)
+Theorem C11_failed_unchanged : forall w o e, exec w o = Err e -> step w o = w.
+Proof. exact step_failed_unchanged. Qed.
+
+Print Assumptions C11_min_receive.
+Print Assumptions C11_assert_message.
+Print Assumptions C11_entry_native.
+Print Assumptions C11_entry_cw20.
+Print Assumptions C11_failed_unchanged.
